@@ -1208,3 +1208,18 @@ def tail_rings():
                     out.append((f"imports:tail{tail}_ring{ring}:{item}:{clause.lower()}", tail_ring(tail, ring, item, clause, late_at), tail, ring, item))
     return out
 
+
+def recursive_selects():
+    """(tag, data): SELECT types that reach themselves through named aggregate types (legal; a direct circle is not): a
+    recursive value type, two selects that contain each other, and a select renamed by a defined type"""
+    out = []
+    out.append(("recursive_value", b"SCHEMA s;\nTYPE simple = INTEGER;\nEND_TYPE;\nTYPE v = SELECT (simple, v_list);\nEND_TYPE;\nTYPE v_list = LIST OF v;\nEND_TYPE;\n"
+                b"ENTITY holder;\n  content : v;\nEND_ENTITY;\nEND_SCHEMA;\n"))
+    out.append(("mutual_selects", b"SCHEMA s;\nENTITY e;\n  x : INTEGER;\nEND_ENTITY;\nTYPE a = SELECT (e, b_list);\nEND_TYPE;\nTYPE b = SELECT (e, a_list);\nEND_TYPE;\n"
+                b"TYPE a_list = LIST OF a;\nEND_TYPE;\nTYPE b_list = SET OF b;\nEND_TYPE;\nENTITY holder;\n  p : a;\n  q : b;\nEND_ENTITY;\nEND_SCHEMA;\n"))
+    out.append(("renamed_select", b"SCHEMA s;\nENTITY e;\n  x : INTEGER;\nEND_ENTITY;\nENTITY f;\n  y : REAL;\nEND_ENTITY;\nTYPE a = SELECT (e, f);\nEND_TYPE;\nTYPE b = a;\nEND_TYPE;\n"
+                b"TYPE c = SELECT (b, a);\nEND_TYPE;\nENTITY holder;\n  p : b;\n  q : c;\nEND_ENTITY;\nEND_SCHEMA;\n"))
+    out.append(("recursive_value_deep", b"SCHEMA s;\nTYPE v = SELECT (w, v_bag);\nEND_TYPE;\nTYPE w = SELECT (v_arr, t);\nEND_TYPE;\nTYPE t = STRING;\nEND_TYPE;\n"
+                b"TYPE v_bag = BAG OF v;\nEND_TYPE;\nTYPE v_arr = ARRAY [1:3] OF v;\nEND_TYPE;\nENTITY holder;\n  content : LIST OF v;\nEND_ENTITY;\nEND_SCHEMA;\n"))
+    return out
+
